@@ -140,6 +140,10 @@ fn expiry_sweep_with(rep: &Report, fewer: u8) -> (u64, u64, u64) {
     };
     let stats = crate::e2_clockpoints::C07Stats { points: 0.into(), node_queries: 0.into(), repeats: 0.into(), info_lines: 0.into(), residual_zero_entries: 0.into(), answers_changed_by_expiry: 0.into() };
     crate::e2_clockpoints::sweep_expiry(rep, &roots, &depth_of, !quick, &stats);
+    // the allowance as a number (not as an expiry point): startpos, a middlegame, two endgames, a history
+    let picked: Vec<crate::e2_clockpoints::Root> = roots.iter().enumerate().filter(|(i, _)| !quick || [0usize, 1, 4, 14, 22].contains(i)).map(|(_, r)| r.clone()).collect();
+    let runs = crate::e2_clockpoints::allowance_independence(rep, &picked, &depth_of);
+    rep.add("unexpired_runs_with_other_numeric_allowances", runs);
     rep.add("expiry_points", stats.points.load(Relaxed));
     rep.add("clock_consultations_executed", stats.node_queries.load(Relaxed));
     rep.add("runs_repeated_for_determinism", stats.repeats.load(Relaxed));
